@@ -5,6 +5,7 @@ import (
 	"fmt"
 	"go/ast"
 	"go/token"
+	"go/types"
 	"os"
 	"sort"
 	"strings"
@@ -25,6 +26,9 @@ import (
 //	del-return    delete an `if … { return … }` guard whole (no else)
 //	cmp-boundary  < ↔ <=, > ↔ >=
 //	swap-stmt     exchange two adjacent statements that both have an effect (call, =, ++, send, defer, go)
+//	undefer       defer f(x) → f(x);  defer-it: f(x) → defer f(x)
+//	arg-swap      exchange two adjacent call arguments of identical type
+//	const-sibling a package-level constant → the next constant of the same type whose name shares a long prefix
 type mutSite struct {
 	ID    int    `json:"id"`
 	Op    string `json:"op"`
@@ -180,6 +184,34 @@ func mutSites(p *Prog, touched map[*Func]bool, repo string) []mutSite {
 						add(f, "del-stmt", s.Pos(), s.End(), "")
 					}
 				}
+			case *ast.DeferStmt:
+				// defer f(x) → f(x): the clean-up runs now instead of at return
+				add(f, "undefer", x.Pos(), x.Call.Pos(), "")
+			case *ast.ExprStmt:
+				// f(x) → defer f(x): the effect is postponed to the return (only for calls without results used)
+				if ce, isCall := x.X.(*ast.CallExpr); isCall && !isLogging(f, x) {
+					if _, isLit := ast.Unparen(ce.Fun).(*ast.FuncLit); !isLit && f.BuiltinName(ce) == "" {
+						add(f, "defer-it", x.Pos(), x.End(), "defer "+text(x))
+					}
+				}
+			case *ast.CallExpr:
+				// exchange two adjacent arguments of identical type
+				for i := 0; i+1 < len(x.Args); i++ {
+					ta, tb := f.TypeOf(x.Args[i]), f.TypeOf(x.Args[i+1])
+					if ta != nil && tb != nil && types.Identical(ta, tb) && text(x.Args[i]) != text(x.Args[i+1]) {
+						if _, isB := ta.Underlying().(*types.Basic); isB && f.ConstVal(x.Args[i]) != nil && f.ConstVal(x.Args[i+1]) != nil {
+							continue // two literals: usually a format string and its text
+						}
+						add(f, "arg-swap", x.Args[i].Pos(), x.Args[i+1].End(), text(x.Args[i+1])+", "+text(x.Args[i]))
+					}
+				}
+			case *ast.Ident:
+				// a package-level constant replaced by its neighbour in a family of like-named constants
+				if cst, isC := f.Info().Uses[x].(*types.Const); isC && cst.Pkg() != nil && cst.Parent() == cst.Pkg().Scope() {
+					if sib := constSibling(cst); sib != "" {
+						add(f, "const-sibling", x.Pos(), x.End(), sib)
+					}
+				}
 			case *ast.BinaryExpr:
 				// boundary slips on ordered comparisons
 				var repl string
@@ -231,4 +263,34 @@ func effectful(s ast.Stmt) bool {
 		return true
 	}
 	return false
+}
+
+// constSibling returns the name of another package-level constant of the same package and type whose name shares a
+// prefix of at least 8 characters with cst (the next one in name order, cyclically); "" if there is none.
+func constSibling(cst *types.Const) string {
+	scope := cst.Pkg().Scope()
+	var fam []string
+	for _, n := range scope.Names() {
+		o, ok := scope.Lookup(n).(*types.Const)
+		if !ok || !types.Identical(o.Type(), cst.Type()) {
+			continue
+		}
+		k := 0
+		for k < len(n) && k < len(cst.Name()) && n[k] == cst.Name()[k] {
+			k++
+		}
+		if k >= 8 {
+			fam = append(fam, n)
+		}
+	}
+	sort.Strings(fam)
+	if len(fam) < 2 {
+		return ""
+	}
+	for i, n := range fam {
+		if n == cst.Name() {
+			return fam[(i+1)%len(fam)]
+		}
+	}
+	return ""
 }
